@@ -119,7 +119,7 @@ def contains_array_app(t, arrays: ArrayModel):
 
 
 def check_index_lambda(h, il, node, spec, arrays: ArrayModel, *,
-                       clause_prefix, value_props=("C02", "C01"),
+                       clause_prefix, value_props=("C02", "C01", "C05"),
                        bounds_props=("C11",), meta_props=("C02",),
                        check_meta=True, spec_shape=None,
                        shape_props=("C02", "C03"), premise=None,
